@@ -356,6 +356,70 @@ Fixpoint filter_results (eqgs : list (list Z)) (results : list fhit) (by_id : li
     end
   end.
 
+(* ------------------------------------------------------------------ filter_results: decidable specification
+   (no part of the transcription; evaluated on the implementation's output, fn 105) *)
+(* two different objects with hsp_overlap_size > 20 *)
+Definition fov (a b : fhit) : bool :=
+  negb (f_id a =? f_id b) && (20 <? Z.min (f_he a) (f_he b) - Z.max (f_hs a) (f_hs b)).
+(* connected component of h under fov among the gene's hits: closure by repeated growth *)
+Definition fgrow (cds S : list fhit) : list fhit :=
+  S ++ filter (fun x => negb (fmem x S) && existsb (fun y => fov y x) S) cds.
+Fixpoint fclosure (n : nat) (cds S : list fhit) : list fhit :=
+  match n with O => S | Datatypes.S n' => fclosure n' cds (fgrow cds S) end.
+Definition fcomp (cds : list fhit) (h : fhit) : list fhit := fclosure (length cds) cds [h].
+(* h scores at least as high as every hit of its component *)
+Definition comp_best (cds : list fhit) (h : fhit) : bool :=
+  forallb (fun o => f_sc o <=? f_sc h) (fcomp cds h).
+
+Fixpoint znodup (l : list Z) : bool :=
+  match l with [] => true | x :: t => negb (mem Z.eqb x t) && znodup t end.
+(* domain: hit_start < hit_end, distinct objects *)
+Definition fwf (cds : list fhit) : bool :=
+  forallb (fun h => f_hs h <? f_he h) cds && znodup (map f_id cds).
+Definition distinct_scores (cds : list fhit) : bool := znodup (map f_sc cds).
+(* len(hits & equivalence_group) >= 2 *)
+Definition competing (eqg : list Z) (mine : list fhit) : bool :=
+  negb (zlen (filter (fun p => mem Z.eqb p eqg) (dedupe Z.eqb (map f_prof mine))) <? 2).
+
+(* the guard under which the groups the loop builds are the connected components: every group lies
+   in a group that contains every group it meets.  (The loop never unites two groups; where this
+   fails the class is filter_groups_not_merged.) *)
+Definition fsubset (g g' : list fhit) : bool := forallb (fun x => fmem x g') g.
+Definition fmeets (g g' : list fhit) : bool := existsb (fun x => fmem x g') g.
+Definition fclosed (gs : list (list fhit)) (g : list fhit) : bool :=
+  forallb (fun g'' => negb (fmeets g'' g) || fsubset g'' g) gs.
+Definition groups_guard (gs : list (list fhit)) : bool :=
+  forallb (fun g => existsb (fun g' => fsubset g g' && fclosed gs g') gs) gs.
+
+(* what the property demands of one gene under one equivalence group: of every connected component
+   of the overlap relation exactly the best-scoring hit stays, everything else is untouched.
+   result: (results', mine', applicable (domain and pairwise distinct scores), guard) *)
+Definition fr_step_spec (eqg : list Z) (results mine : list fhit) : list fhit * list fhit * bool * bool :=
+  if competing eqg mine then
+    let dead := filter (fun h => negb (comp_best mine h)) mine in
+    (filter (fun r => negb (fmem r dead)) results, filter (comp_best mine) mine,
+     fwf mine && distinct_scores mine,
+     match overlapping_groups mine with Ok gs => groups_guard gs | Err _ => false end)
+  else (results, mine, true, true).
+Fixpoint fr_genes_spec (eqg : list Z) (results : list fhit) (by_id : list (list fhit))
+  : list fhit * list (list fhit) * bool * bool :=
+  match by_id with
+  | [] => (results, [], true, true)
+  | mine :: rest =>
+    let '(r1, m1, a1, g1) := fr_step_spec eqg results mine in
+    let '(r2, rest', a2, g2) := fr_genes_spec eqg r1 rest in
+    (r2, m1 :: rest', a1 && a2, g1 && g2)
+  end.
+Fixpoint fr_spec (eqgs : list (list Z)) (results : list fhit) (by_id : list (list fhit))
+  : list fhit * list (list fhit) * bool * bool :=
+  match eqgs with
+  | [] => (results, by_id, true, true)
+  | eqg :: more =>
+    let '(r1, b1, a1, g1) := fr_genes_spec eqg results by_id in
+    let '(r2, b2, a2, g2) := fr_spec more r1 b1 in
+    (r2, b2, a1 && a2, g1 && g2)
+  end.
+
 (* ------------------------------------------------------------------ filter_nonterminal_docking_domains *)
 Record dhit := mkDH { d_id : Z; d_dock : Z; d_s : Z; d_e : Z }.
 Definition docking_keep (cds_length : Z) (h : dhit) : bool :=
@@ -399,6 +463,30 @@ Definition out_of (g : Z) (out : list (Z * list hit)) : list hit :=
 Definition coverage_all (L : Z -> Z) (l : list (Z * hit)) (out : list (Z * list hit)) : bool :=
   forallb (fun g => gene_coverage L (hits_of g l) (out_of g out)) (genes_of l).
 
+(* ------------------------------------------------------------------ the guard of the pairwise-margin clause
+   (finding class greedy_replacement_margin = inputs outside it) *)
+(* monotone overlap: in list order a .. b .. c, if c overlaps a beyond the margin then so does b *)
+Fixpoint mono_from (L : Z -> Z) (a : hit) (t : list hit) : bool :=
+  match t with
+  | [] => true
+  | b :: t' => forallb (fun c => negb (ovl L c a) || ovl L b a) t' && mono_from L a t'
+  end.
+Fixpoint mono_ovl (L : Z -> Z) (l : list hit) : bool :=
+  match l with
+  | [] => true
+  | a :: t => mono_from L a t && mono_ovl L t
+  end.
+(* the guard of one gene: the list handed to _remove_overlapping has monotone overlap *)
+Definition margin_guard (neighbour : bool) (L : Z -> Z) (l : list hit) : bool :=
+  mono_ovl L (if neighbour then canonical l else merge_domain_list L (canonical l)).
+(* the guard of a whole call: every gene's *)
+Definition margin_guard_all (neighbour : bool) (L : Z -> Z) (l : list (Z * hit)) : bool :=
+  forallb (fun g => margin_guard neighbour L (hits_of g l)) (genes_of l).
+(* all hits' profiles have the same length *)
+Definition uniform_len (L : Z -> Z) (l : list hit) : bool :=
+  match l with [] => true | h :: t => forallb (fun x => L (prof x) =? L (prof h)) t end.
+
+
 (* ------------------------------------------------------------------ encoding *)
 Definition dHit : dec hit := fun l =>
   match l with a :: b :: c :: d :: e :: r => Some (mkHit a b c d e, r) | _ => None end.
@@ -434,7 +522,7 @@ Definition run_refine (neighbour : bool) (l : list Z) : list Z :=
   end.
 
 (* spec on an output: payload = table, input hits, then the (implementation's) result.
-   answer: [ok; sorted; provenance; pairwise margin; coverage (neighbour mode only)] *)
+   answer: [ok; sorted; provenance; pairwise margin; coverage (neighbour mode only); margin guard of the input] *)
 Definition run_refine_spec (neighbour : bool) (l : list Z) : list Z :=
   match dPair (dList dPEntry) (dList dGHit) l with
   | Some ((t, hits), 0 :: r) =>
@@ -444,10 +532,11 @@ Definition run_refine_spec (neighbour : bool) (l : list Z) : list Z :=
       let p := forallb (fun gr => forallb (from_input (hits_of (fst gr) hits)) (snd gr)) out in
       let m := forallb (fun gr => pairwise_margin (plen t) (snd gr)) out in
       let c := if neighbour then coverage_all (plen t) hits out else true in
-      eBool (s && p && m && c) ++ eBool s ++ eBool p ++ eBool m ++ eBool c
+      let g := margin_guard_all neighbour (plen t) hits in
+      eBool (s && p && m && c) ++ eBool s ++ eBool p ++ eBool m ++ eBool c ++ eBool g
     | _ => bad_input
     end
-  | Some (_, [1; _]) => [1; 1; 1; 1; 1]
+  | Some (_, [1; _]) => [1; 1; 1; 1; 1; 1]
   | _ => bad_input
   end.
 
@@ -461,6 +550,10 @@ Fixpoint hcount (x : hhit) (l : list hhit) : Z :=
   match l with [] => 0 | y :: t => (if hh_eqb x y then 1 else 0) + hcount x t end.
 Definition hh_nomult (inp out : list hhit) : bool :=
   forallb (fun x => hcount x out <=? hcount x inp) out.
+
+(* every input hit is returned or conflicts with a returned hit that ranks strictly better *)
+Definition hh_dropped_ok (limit : Z) (cut : Z -> Z) (inp out : list hhit) : bool :=
+  forallb (fun x => mem hh_eqb x out || existsb (fun k => conflict limit x k && rank_lt cut k x) out) inp.
 
 Definition hh_ok (n : Z) (h : hhit) : bool :=
   (0 <=? h_id h) && (h_id h <? n) && (h_st h <? h_en h) && (0 <? h_sc h).
@@ -497,29 +590,49 @@ Definition run_C13 (fn : Z) (l : list Z) : list Z :=
          | Some ((a, b), []) => eRes eHit (merge_checked a b)
          | _ => bad_input
          end
+  | 105 => (* payload of fn 5 followed by the result: [ok; applicable; guard; result = specification] *)
+         match dPair (dList (dList dZ)) (dPair (dList dFH) (dList (dList dFH))) l with
+         | Some ((eqgs, (results, by_id)), r) =>
+           let '(sr, sb, app0, grd) := fr_spec eqgs results by_id in
+           let app := app0 && znodup (map f_id (concat by_id)) in
+           let same :=
+             match r with
+             | 0 :: r' =>
+               match dPair (dList dZ) (dList (dList dZ)) r' with
+               | Some ((ir, ib), []) =>
+                 list_eqb Z.eqb ir (map f_id sr) && list_eqb (list_eqb Z.eqb) ib (map (map f_id) sb)
+               | _ => false
+               end
+             | _ => false
+             end in
+           eBool (negb app || same) ++ eBool app ++ eBool grd ++ eBool same
+         | _ => bad_input
+         end
   | 101 => run_refine_spec true l
   | 102 => run_refine_spec false l
-  | 107 => (* payload of fn 7 followed by the result: [the merged hit spans both operands] *)
+  | 107 => (* payload of fn 7 followed by the result: [the merged hit spans both operands; best score and least e-value] *)
          match dPair dHit dHit l with
          | Some ((a, b), 0 :: r) =>
            match dHit r with
            | Some (m, []) => eBool (covers m a && covers m b)
+                             ++ eBool ((sc m =? Z.max (sc a) (sc b)) && (ev m =? Z.min (ev a) (ev b)))
            | _ => bad_input
            end
-         | Some (_, [1; _]) => [1]
+         | Some (_, [1; _]) => [1; 1]
          | _ => bad_input
          end
-  | 103 => (* payload of fn 3 followed by the result: [ok; no conflicting pair; multiplicity] *)
+  | 103 => (* payload of fn 3 followed by the result: [ok; no conflicting pair; multiplicity; dropped only for a kept better-ranked conflicting hit] *)
          match dPair dZ (dPair (dList (dOpt dZ)) (dList dHH)) l with
-         | Some ((limit, (_, hits)), 0 :: r) =>
+         | Some ((limit, (cutoffs, hits)), 0 :: r) =>
            match dList dHH r with
            | Some (out, []) =>
              let c := pairwise_noconflict limit out in
              let d := hh_nomult hits out in
-             eBool (c && d) ++ eBool c ++ eBool d
+             let b := hh_dropped_ok limit (cut_of cutoffs) hits out in
+             eBool (c && d && b) ++ eBool c ++ eBool d ++ eBool b
            | _ => bad_input
            end
-         | Some (_, [1; _]) => [1; 1; 1]
+         | Some (_, [1; _]) => [1; 1; 1; 1]
          | _ => bad_input
          end
   | _ => bad_input
